@@ -80,6 +80,8 @@ static void write_file(const std::string & p, const std::string & s) { std::ofst
 struct ExecArgs { Engine * eng; const Json * plan; bool verbose; Json result; };
 static void * exec_thread(void * a) {
 	ExecArgs * x = (ExecArgs *)a;
+	// allocator perturbation common to every engine of variants A/B: plan["knobs"]["malloc_fill"]
+	if (x->plan->has("knobs") && x->plan->at("knobs").is_obj()) g_sim.malloc_fill = (int)x->plan->at("knobs").geti("malloc_fill", 0);
 	x->result = x->eng->execute(*x->plan, x->verbose);
 	return nullptr;
 }
@@ -119,6 +121,7 @@ static void child_main(Engine * eng, const Json & plan, bool verbose, int wfd, i
 	r["env"] = env_to_json();
 	Json fired = Json::object();
 	for (auto & kv : g_sim.fired) fired[kv.first] = kv.second;
+	if (g_sim.garbage_fills) fired["fresh_heap_garbage"] = (int64_t)g_sim.garbage_fills;
 	r["fired"] = fired;
 	Json probes = r.has("probes") ? r["probes"] : Json::object();
 	for (auto & kv : g_sim.probes) probes[kv.first] = probes.geti(kv.first) + (int64_t)kv.second;
